@@ -17,7 +17,9 @@ def _descs():
     from flow.record import RecordDescriptor
 
     return {"A": RecordDescriptor("c03/a", [("varint", "n")]), "A2": RecordDescriptor("c03/a", [("string", "s")]), "B": RecordDescriptor("c03/b", [("string", "s")]),
-            "N": RecordDescriptor("c03/nest", [("record", "r"), ("record[]", "rs")]), "G1": RecordDescriptor("c03/p", [("varint", "n")]), "G2": RecordDescriptor("c03/q", [("varint", "n")])}
+            "N": RecordDescriptor("c03/nest", [("record", "r"), ("record[]", "rs")]), "G1": RecordDescriptor("c03/p", [("varint", "n")]), "G2": RecordDescriptor("c03/q", [("varint", "n")]),
+            # different names, the same name ++ field name ++ type text: distinct identifiers
+            "X": RecordDescriptor("c03/log", [("string", "inuser")]), "Y": RecordDescriptor("c03/login", [("string", "user")])}
 
 
 def _fields(r):
@@ -152,7 +154,11 @@ def _check_file(fmt, data, written):
 def _make(rng, D, depth=0):
     from flow.record import GroupedRecord
 
-    k = rng.randrange(7 if depth == 0 else 3)
+    k = rng.randrange(9 if depth == 0 else 5)
+    if k == 7 or (depth and k == 3):
+        return D["X"](inuser="x%d" % rng.randrange(9))
+    if k == 8 or (depth and k == 4):
+        return D["Y"](user="y%d" % rng.randrange(9))
     if k == 0:
         return D["A"](n=rng.randrange(9))
     if k == 1:
@@ -207,11 +213,14 @@ def c03_scenario(kind="new type", fmt="stream"):
     D = _descs()
     a, a2, b = D["A"](n=1), D["A2"](s="x"), D["B"](s="b")
     pre = {"new type": [], "known type": [a], "same name registered": [a2], "nested, nothing known": [], "nested, holder known": [D["N"](r=None, rs=[])], "nested, inner known": [a, b],
-           "grouped, nothing known": [], "grouped, one member known": [a], "grouped, same names registered": [a, D["B"].__class__("c03/b", [("varint", "zz")])(zz=1)], "grouped twice, other members": [GroupedRecord("c03/grp", [D["G1"](n=1), b])], "two writers": [], "frame": []}[kind]
+           "grouped, nothing known": [], "grouped, one member known": [a], "grouped, same names registered": [a, D["B"].__class__("c03/b", [("varint", "zz")])(zz=1)], "grouped twice, other members": [GroupedRecord("c03/grp", [D["G1"](n=1), b])], "same hash text, other name": [], "two writers": [], "frame": []}[kind]
     if kind.startswith("nested"):
         rec = D["N"](r=a, rs=[a2, b])
     elif kind == "grouped twice, other members":
         rec = GroupedRecord("c03/grp", [D["G2"](n=2), b])
+    elif kind == "same hash text, other name":
+        pre = [D["X"](inuser="1")]
+        rec = D["Y"](user="2")
     elif kind.startswith("grouped"):
         rec = GroupedRecord("c03/grp", [a, b, a2])
     else:
